@@ -1062,7 +1062,51 @@ def zombie_region(case, obs):
     return any(flags)
 
 
+def _after_do_steps(flows):
+    """step statements that directly follow a `do` inside a SUBFLOW body (any nesting)."""
+    out = set()
+
+    def walk(stmts):
+        for i, s in enumerate(stmts):
+            if "do" in s and i + 1 < len(stmts):
+                n = stmts[i + 1]
+                if "b" in n:
+                    out.add(("bot", n["b"]))
+                elif "x" in n:
+                    out.add(("act", n["x"][0]))
+            if "if" in s:
+                walk(s["if"][1])
+                walk(s["if"][2])
+            if "while" in s:
+                walk(s["while"][1])
+
+    for f in flows:
+        if f["sub"]:
+            walk(f["body"])
+    return out
+
+
+def nested_do_region(case, obs, k):
+    """Prefix k decides a statement that directly follows a nested `do` (a subflow calling a subflow) although
+    nothing or something else was expected: the structural region of `nested-subflow-decides-early`."""
+    try:
+        got = obs["used"][k]
+        if "ok" not in got:
+            return False
+        after = _after_do_steps(case["flows"])
+        return any((d[0], d[1]) in after for d in got["ok"] if d[0] in ("bot", "act"))
+    except Exception:  # noqa
+        return False
+
+
 def signature(case, obs, msg):
+    if msg.startswith("FOLLOW: prefix ") or msg.startswith("prefix "):
+        try:
+            k = int(msg.split("prefix ")[1].split(":")[0])
+            if not obs["zombie"][k] and nested_do_region(case, obs, k):
+                return "nested-subflow-decides-early"
+        except Exception:  # noqa
+            pass
     if msg.startswith("ZOMBIE"):
         return "flow-finished-on-start-event"
     if msg.startswith("prefix "):
